@@ -118,7 +118,7 @@ def validate_stream(tier):
 
 EXEC_FORMAT = ('X <test;test;...: inline config ~-separated + st=<scripted runner status C<code>|T|S|D|U|E> sl=<sleep ms>>|<document config>|'
                '<executor result: OK statuses | SKIP i | TIMEOUT T|I<i> statuses | FAILED i>|<what the mock runner saw per call: name/timeout ms/skip code/flags+config>|left=<entries left in temp dir>   '
-               'R <doc;doc: <m|c><role m|p|a>:<doc skip code>:<total_timeout ms>:<tests P pass,O wrong output,C<n> wrong code,E<n> expected code,S skip,T per-test timeout,G document timeout,D detached,K killed; i<n> inline skip code>>|cli_timeout|exit|json ok|<location/title=result,...>|marks=<execution order>|leftover   '
+               'R <doc;doc: <m|c><role m|p|a><file number>:<doc skip code>:<total_timeout ms>:<tests P pass,O wrong output,C<n> wrong code,E<n> expected code,S skip,T per-test timeout,G document timeout,D detached,K killed,X plain exit 3 (Cram: leaves the script early); i<n> inline skip code>>|cli_timeout|exit|json ok|<location/title=result,...>|marks=<execution order>|leftover|late=<commands that went on running after their timeout>   '
                'V <status> <expected code> <output_stream> <stdout ok> <stderr ok> <no expectations>|<validate result>')
 
 PROPS['C05'] = dict(
@@ -153,7 +153,7 @@ PROPS['C14'] = dict(
 )
 PROPS['C15'] = dict(
     family='line', needs_scrut_bin=True,
-    theorems=['C15_skip_detected', 'C15_skip_all', 'C15_only_then', 'C15_skip_has_cause', 'C15_default_code'],
+    theorems=['C15_skip_detected', 'C15_skip_all', 'C15_only_then', 'C15_skip_has_cause', 'C15_script_skip_detected', 'C15_script_skip_has_cause', 'C15_default_code'],
     streams=lambda tier: [exec_stream(tier), cli_stream(tier)],
     spec_kinds=['SPEC:C15'], corr_kinds=['DIFF:skipcode', 'DIFF:exec', 'DIFF:results'],
     case_format=EXEC_FORMAT,
